@@ -19,7 +19,7 @@ from .types import (DICT_METHODS, LIST_METHODS, NODE_Q, NULLABLE_TYPES, RULE_Q, 
 
 RET = "$ret"
 STORE = "$store"
-TRANSFER = {"nn", "none", "known", "rulekey", "parses", "lenge", "member", "haskey", "desc", "reg", "isstr", "falsy"}
+TRANSFER = {"nn", "none", "known", "rulekey", "parses", "lenge", "member", "haskey", "desc", "reg", "isstr", "falsy", "listed"}
 
 # externals and builtins that accept None arguments without raising
 NONE_TOLERANT = {
@@ -193,6 +193,8 @@ class Domain:
                 out.add(("nn", p))
             if t == T_NODE and self.eng.registry_invariant and not any(f[0] == "none" and f[1] == p for f in out):
                 out.add(("reg", p))
+            if t in (T_NODE, T_OPT) and self.eng.tree_invariant:
+                out.add(("listed", p))  # tree invariant on entry: if p has a parent, that parent lists p
         return frozenset(out)
 
     def path(self, e) -> Optional[str]:
@@ -298,6 +300,8 @@ class Domain:
         out = set(st)
         for f in facts:
             out.add(f)
+            if f[0] == "desc":
+                out.add(("listed", f[1]))
             if f[0] in ("nn", "none", "isstr", "known", "rulekey", "desc"):
                 p = f[1]
                 for g in st:
@@ -561,6 +565,12 @@ class Domain:
                         out.append(("desc", v))
             if isinstance(it, ast.Call) and isinstance(it.func, ast.Name) and it.func.id == "range":
                 out.extend(self._range_facts(v, it, st))
+        elif isinstance(target, ast.Tuple) and ip is not None and "." not in ip:
+            for i, x in enumerate(target.elts):
+                if isinstance(x, ast.Name):
+                    for g in st:
+                        if g[0] == "elem" and g[1] == ip and g[2] == i:
+                            out.append((g[3], x.id))
         elif isinstance(target, ast.Tuple) and isinstance(it, ast.Call):
             f = it.func
             if isinstance(f, ast.Attribute) and f.attr == "items" and len(target.elts) == 2 and isinstance(target.elts[0], ast.Name):
@@ -846,6 +856,10 @@ class Domain:
                 out.append(("lb", p, v))
         if isinstance(value, (ast.List, ast.Tuple)):
             out.append(("lenge", p, len(value.elts)))
+        if (isinstance(value, ast.List) and not value.elts) or (isinstance(value, ast.Call) and isinstance(value.func, ast.Name)
+                                                                and value.func.id == "list" and not value.args):
+            if "." not in p:
+                out.append(("elemall", p))
         if isinstance(value, ast.Subscript):
             out.extend(self._subscript_value_facts(p, value, st))
         if isinstance(value, ast.Call):
@@ -1074,7 +1088,7 @@ class Domain:
             k = fx[0]
             if k == "elem":  # a particular node (path) leaves its parent's list
                 x = fx[1]
-                out = {f for f in out if not ((f[0] == "member" and f[1] == x) or (f[0] == "desc" and f[1] == x))}
+                out = {f for f in out if not ((f[0] == "member" and f[1] == x) or (f[0] in ("desc", "listed") and f[1] == x))}
             elif k == "shrink_path":  # the list at this path loses unknown elements
                 lp = fx[1]
                 out = {f for f in out if not ((f[0] in ("member", "snap") and f[2] == lp) or (f[0] in ("ub", "eqlen") and lp in F.paths_of(f))
@@ -1088,14 +1102,15 @@ class Domain:
                                               or (f[0] in ("ub", "eqlen", "lenge") and any(q.split(".")[0] == r and "_children" in q for q in F.paths_of(f)))
                                               or (f[0] == "desc" and f[1].split(".")[0] != r and False))}
             elif k == "any":
-                out = {f for f in out if f[0] not in ("member", "snap", "desc") and not (f[0] in ("ub", "eqlen", "lenge") and any("_children" in q for q in F.paths_of(f)))}
+                out = {f for f in out if not (f[0] == "elem" and f[3] in ("desc", "listed"))}
+                out = {f for f in out if f[0] not in ("member", "snap", "desc", "listed") and not (f[0] in ("ub", "eqlen", "lenge") and any("_children" in q for q in F.paths_of(f)))}
             elif k == "unreg":
                 x = fx[1]
                 out = {f for f in out if not (f[0] == "reg" and f[1] == x) and not (f[0] == "haskey" and f[1] == STORE and f[2] in (x + "._id",))}
             elif k == "unreg_below":
                 pass
             elif k == "unreg_any":
-                out = {f for f in out if f[0] != "reg" and not (f[0] == "haskey" and f[1] == STORE)}
+                out = {f for f in out if f[0] != "reg" and not (f[0] == "haskey" and f[1] == STORE) and not (f[0] == "elem" and f[3] == "reg")}
         return frozenset(out)
 
     def _ctx_for(self, tgt, call, st):
@@ -1142,7 +1157,7 @@ class Domain:
         if self.eng.tree_invariant:
             extra = set()
             for f in st:
-                if f[0] == "desc":
+                if f[0] == "desc" or (f[0] == "listed" and ("nn", f[1] + "._parent") in st):
                     x = f[1]
                     par = x + "._parent"
                     extra.add(("member", x, par + "._children"))
@@ -1419,7 +1434,7 @@ class Domain:
                 if ok is None and bp is not None and xp is not None and self.eng.tree_invariant:
                     # D-TREE: x obtained by descent is listed by x.parent
                     owner = bp[: -len("._children")] if bp.endswith("._children") else None
-                    if owner is not None and ("desc", xp) in st:
+                    if owner is not None and (("desc", xp) in st or (("listed", xp) in st and ("nn", xp + "._parent") in st)):
                         if owner == xp + "._parent" or any(g[0] == "alias" and ((g[1] == owner and g[2] == xp + "._parent") or (g[2] == owner and g[1] == xp + "._parent")) for g in st):
                             ok = "D-TREE"
                 self.oblige(e, f"list.{m}(x)", ["ValueError"], st, ok, why=f"`{norm(args[0])}` not proven to be in `{norm(recv)}`")
@@ -1439,6 +1454,22 @@ class Domain:
             if bt in (T_NLIST, T_LIST) and m in ("append", "insert", "extend"):
                 if bp:
                     st = frozenset(g for g in st if not (g[0] in ("eqlen", "snap") and bp in F.paths_of(g) and g[0] == "eqlen"))
+                if bp and "." not in bp and m == "append" and args and isinstance(args[0], ast.Tuple):
+                    new = set()
+                    for i, x in enumerate(args[0].elts):
+                        xp = self.path(x)
+                        if not self.nullable(x, st):
+                            new.add(("elem", bp, i, "nn"))
+                        if xp is not None:
+                            for kd in ("desc", "listed", "reg"):
+                                if (kd, xp) in st:
+                                    new.add(("elem", bp, i, kd))
+                    if ("elemall", bp) in st:
+                        st = frozenset(g for g in st if g != ("elemall", bp)) | frozenset(new)
+                    else:
+                        st = frozenset(g for g in st if not (g[0] == "elem" and g[1] == bp and g not in new))
+                elif bp and "." not in bp:
+                    st = frozenset(g for g in st if not (g[0] in ("elem", "elemall") and g[1] == bp))
                 return st
             if bt in (T_DICT, T_NDICT) and m == "pop":
                 kp = self.path(args[0]) if args else None
@@ -1525,7 +1556,7 @@ class Domain:
                 if removed_path is None or f[1] == removed_path or any(
                         g[0] == "alias" and {g[1], g[2]} == {f[1], removed_path} for g in st):
                     continue
-            if f[0] == "desc" and removed_path is not None and f[1] == removed_path:
+            if f[0] in ("desc", "listed") and removed_path is not None and f[1] == removed_path:
                 continue
             if f[0] in ("ub", "eqlen") and lp in F.paths_of(f):
                 continue
